@@ -127,13 +127,15 @@ func (r *Run) RequireCov(keys ...string) { r.requireCov = append(r.requireCov, k
 // Case records one executed case. key identifies the case for distinctness;
 // nontrivial says whether it satisfies the monitor's non-triviality rule.
 func (r *Run) Case(key string, nontrivial bool) {
+	var k [16]byte
+	if nontrivial {
+		h := sha256.Sum256([]byte(key))
+		copy(k[:], h[:16])
+	}
 	r.mu.Lock()
 	defer r.mu.Unlock()
 	r.evals++
 	if nontrivial {
-		h := sha256.Sum256([]byte(key))
-		var k [16]byte
-		copy(k[:], h[:16])
 		r.distinct[k] = struct{}{}
 	}
 }
